@@ -1,5 +1,5 @@
 (* C16 - Reported sizes and counts always equal what is actually stored. *)
-From IggyV Require Import Base.Tactics Base.ListX Model.Part Model.PartSpec Proofs.PartBasics.
+From IggyV Require Import Base.Tactics Base.ListX Model.Part Model.PartSpec Proofs.PartBasics Proofs.PartHistory Proofs.PartCounts.
 Open Scope N_scope.
 
 Definition C16_full : Prop := forall c t0 ops, model_check c t0 ops = 0.
@@ -15,4 +15,22 @@ Theorem C16_append_counters_partial : forall c p now ms p' r,
   (r <> OK -> p_msgs p' = p_msgs p /\ p_size p' = p_size p).
 Proof. exact append_counters. Qed.
 
+(* PROVED, history level (every operation list; side conditions as in C01_history_partial: positive segment size, offsets below
+   2^32, no message expiry configured): the partition's reported message count equals the number of messages it stores, its
+   reported size equals the bytes of its log files plus its buffered messages, and the per-segment counts add up to the same
+   number - after sends, flushes, saves, restarts (where the counters are recomputed from the files), purges and size-based
+   retention alike. *)
+Theorem C16_counters_history_partial : forall ops c t0, good_cfg c -> Forall no_expiry_op ops ->
+  Forall (fun q => abase q <= B32) (prun_states (c, part_new c t0) ops) ->
+  let p := snd (pfinal (c, part_new c t0) ops) in
+  p_msgs p = nlen (part_all p) /\
+  p_size p = sum_sizes (p_segs p) /\
+  (forall s, In s (p_segs p) -> s_size s = log_bytes (s_log s) + msgs_size (acc_msgs s)) /\
+  sum_counts (p_segs p) = nlen (part_all p).
+Proof.
+  intros ops c t0 Hc Hops Hb. cbn zeta. pose proof (history_K ops c (part_new c t0) Hc (K_new c t0) Hops Hb) as HK.
+  split; [apply (k_msgs _ HK)|]. split; [apply (k_psize _ HK)|]. split; [apply (k_cnt _ (k_seg _ HK)) | apply (K_counts _ (k_seg _ HK))].
+Qed.
+
 Print Assumptions C16_append_counters_partial.
+Print Assumptions C16_counters_history_partial.
